@@ -73,6 +73,83 @@ theorem getLine_first_named (id side : String) (lines : List (List String)) (i :
   · simp [getLine, hne, hnone, hs, pure, Except.pure, bind, Except.bind, Except.toOption]
   · simp [getLine, hs, pure, Except.pure, bind, Except.bind, Except.toOption]
 
+/-- index (counted from `k`) of the `n`-th line (`n ≥ 1`) that holds `name` -/
+def nthName (name : String) : List (List String) → Nat → Nat → Option Nat
+  | [], _, _ => none
+  | l :: rest, k, n =>
+    if l.contains name then (if n ≤ 1 then some k else nthName name rest (k + 1) (n - 1))
+    else nthName name rest (k + 1) n
+
+private theorem scanNamed_nth (id : String) :
+    ∀ (lines : List (List String)) (k n i : Nat) (last : Option Nat), 1 ≤ n → nthName id lines k n = some i →
+      scanNamed id 1 lines k (n : Int) last = (some i, 0, true) := by
+  intro lines
+  induction lines with
+  | nil => intro k n i last hn h; simp [nthName] at h
+  | cons l rest ih =>
+    intro k n i last hn h
+    unfold nthName at h
+    unfold scanNamed
+    by_cases hc : l.contains id = true
+    · simp only [hc, if_true] at h ⊢
+      by_cases h1 : n ≤ 1
+      · have hn1 : n = 1 := by omega
+        subst hn1
+        simp only [Nat.le_refl, if_true, Option.some.injEq] at h
+        subst h
+        simp
+      · simp only [h1, if_false] at h
+        have hne : ((n : Int) - 1 == 0) = false := by
+          have : (n : Int) - 1 ≠ 0 := by omega
+          simpa using this
+        simp only [hne, Bool.false_eq_true, if_false]
+        have hcast : ((n : Int) - 1) = ((n - 1 : Nat) : Int) := by omega
+        rw [hcast]
+        exact ih (k + 1) (n - 1) i _ (by omega) h
+    · simp only [hc, Bool.false_eq_true, if_false] at h ⊢
+      have hne : ((n : Int) == 0) = false := by
+        have : (n : Int) ≠ 0 := by omega
+        simpa using this
+      simp only [hne, Bool.false_eq_true, if_false]
+      exact ih (k + 1) n i _ hn h
+
+/-- `placement_names`, `<integer> <name>` (full strength since repair c8a4ac7): `grid-column-start: n foo` with a
+positive `n` resolves to the `n`-th line called `foo` (0-based index `i`), whatever the other names on the lines. -/
+theorem getLine_nth_named (id side : String) (lines : List (List String)) (n i : Nat) (hn : 1 ≤ n)
+    (h : nthName id lines 0 n = some i) :
+    (getLine false (some (n : Int)) (some id) lines side).toOption.map (·.coord) = some (some (i : Int)) := by
+  have hs := scanNamed_nth id lines 0 n i none hn h
+  have hpos : 0 < n := hn
+  have hn0 : n ≠ 0 := by omega
+  simp [getLine, hpos, hn0, hs, pure, Except.pure, bind, Except.bind, Except.toOption]
+
+/-- what `nthName` returns: a line that holds the name -/
+theorem nthName_holds (name : String) :
+    ∀ (lines : List (List String)) (k n i : Nat), nthName name lines k n = some i →
+      k ≤ i ∧ ∃ l, lines[i - k]? = some l ∧ l.contains name = true := by
+  intro lines
+  induction lines with
+  | nil => intro k n i h; simp [nthName] at h
+  | cons l rest ih =>
+    intro k n i h
+    unfold nthName at h
+    by_cases hc : l.contains name = true
+    · simp only [hc, if_true] at h
+      by_cases h1 : n ≤ 1
+      · simp only [h1, if_true, Option.some.injEq] at h
+        subst h
+        exact ⟨Nat.le_refl _, l, by simp, hc⟩
+      · simp only [h1, if_false] at h
+        obtain ⟨hk, l', hl', hc'⟩ := ih (k + 1) (n - 1) i h
+        refine ⟨by omega, l', ?_, hc'⟩
+        have : i - k = (i - (k + 1)) + 1 := by omega
+        rw [this]; simpa using hl'
+    · simp only [hc, Bool.false_eq_true, if_false] at h
+      obtain ⟨hk, l', hl', hc'⟩ := ih (k + 1) n i h
+      refine ⟨by omega, l', ?_, hc'⟩
+      have : i - k = (i - (k + 1)) + 1 := by omega
+      rw [this]; simpa using hl'
+
 /-- `placement_names`, areas: `grid-column: a` (both edges named after the area `a`), with the
 implicit names `a-start` on line `i` and `a-end` on a later line `j`: the item occupies the tracks
 `i … j − 1`. -/
@@ -164,6 +241,54 @@ theorem item_in_area_aligned (c : GContainer) (it : GItem) (px py areaW areaH w0
       have e2 : (as == SelfAlign.endLike) = false := by simpa using b
       rw [hr]; simp [e1, e2]; grind)
 
+private theorem blw_some (cb l w r pb : Rat) : blockLevelWidth cb (some l) (some w) (some r) pb = (l, w, r) := by
+  by_cases hc : pb + w + l + r > cb <;> simp [blockLevelWidth, lenOr0, hc]
+
+/-- `item_in_area`, aligned, full strength (since repair ca85a65 the content width of a `justify-self`-aligned item is
+its max-content *content* width): an item of width `w0` and height `h0` with any non-auto margins, paddings and
+borders, aligned `start` / `center` / `end` (anything but stretch / normal), keeps its size, and its *margin box* is
+flush with the start of its area, centred in it, or flush with its end, on both axes. -/
+theorem item_in_area_aligned_full (c : GContainer) (it : GItem) (px py areaW areaH w0 h0 ml mr mt mb : Rat)
+    (hml : it.ml = some ml) (hmr : it.mr = some mr) (hmt : it.mt = some mt) (hmb : it.mb = some mb)
+    (hw : it.sWidth = some w0) (hh : it.sHeight = some h0) (hw0 : 0 ≤ w0) (hh0 : 0 ≤ h0)
+    (hjs : isStretch (resolveSelf c.justifyItems it.justifySelf) = false)
+    (has : isStretch (resolveSelf c.alignItems it.alignSelf) = false) :
+    let r := itemRect c it px py areaW areaH
+    let js := resolveSelf c.justifyItems it.justifySelf
+    let as := resolveSelf c.alignItems it.alignSelf
+    r.w = w0 + (it.pl + it.pr + it.bl + it.br) ∧ r.h = h0 + (it.pt + it.pb + it.bt + it.bb) ∧
+    (js = .center → (r.x - ml) - px = (px + areaW) - (r.x + r.w + mr)) ∧
+    ((js = .endLike ∨ js = .right) → r.x + r.w + mr = px + areaW) ∧
+    (js ≠ .center → js ≠ .endLike → js ≠ .right → r.x = px + ml) ∧
+    (as = .center → (r.y - mt) - py = (py + areaH) - (r.y + r.h + mb)) ∧
+    (as = .endLike → r.y + r.h + mb = py + areaH) ∧
+    (as ≠ .center → as ≠ .endLike → r.y = py + mt) := by
+  intro r js as
+  have hr : r = itemRect c it px py areaW areaH := rfl
+  unfold itemRect at hr
+  simp only [hml, hmr, hmt, hmb, hw, hh, lenOr0, hjs, has, Bool.false_and,
+    Bool.false_eq_true, if_false, blw_some] at hr
+  have hjs' : js = resolveSelf c.justifyItems it.justifySelf := rfl
+  have has' : as = resolveSelf c.alignItems it.alignSelf := rfl
+  rw [← hjs', ← has'] at hr
+  have hnn : ¬ (w0 < 0) := Rat.not_lt.mpr hw0
+  have hmaxh : max 0 h0 = h0 := by grind
+  simp only [hnn, if_false, hmaxh] at hr
+  refine ⟨by rw [hr], by rw [hr], ?_, ?_, ?_, ?_, ?_, ?_⟩
+  · intro hc; rw [hr]; simp [hc]; grind
+  · intro hc; rw [hr]; rcases hc with hc | hc <;> simp [hc] <;> grind
+  · intro a b d
+    have e1 : (js == SelfAlign.center) = false := by simpa using a
+    have e2 : (js == SelfAlign.endLike) = false := by simpa using b
+    have e3 : (js == SelfAlign.right) = false := by simpa using d
+    rw [hr]; simp [e1, e2, e3]
+  · intro hc; rw [hr]; simp [hc]; grind
+  · intro hc; rw [hr]; simp [hc]; grind
+  · intro a b
+    have e1 : (as == SelfAlign.center) = false := by simpa using a
+    have e2 : (as == SelfAlign.endLike) = false := by simpa using b
+    rw [hr]; simp [e1, e2]
+
 /-! Non-vacuity -/
 
 -- names: `[p] 10px [foo] 20px [a-start] 30px [a-end foo]`
@@ -188,5 +313,21 @@ example :
     let c : GContainer := { (default : GContainer) with justifyItems := .normal, alignItems := .normal }
     let r := itemRect c it 10 5 50 20
     (r.x, r.y, r.w, r.h) = (12, 5, 45, 20) := by decide +kernel
+
+-- getLine_nth_named: `[foo] [bar foo] [] [foo]`: the third `foo` line is line 3 (0-based)
+example :
+    let lines := [["foo"], ["bar", "foo"], [], ["foo"]]
+    nthName "foo" lines 0 3 = some 3 ∧ nthName "foo" lines 0 2 = some 1 ∧
+    (getLine false (some 3) (some "foo") lines "start").toOption.map (·.coord) = some (some 3) := by
+  decide +kernel
+
+-- item_in_area_aligned_full: `justify-self: center; align-self: end`, 20 x 10 with margins 2 / 4 / 1 / 3 and
+-- 5px horizontal padding, in a 100 x 40 area at (10, 5): border box 30 wide, centred margin box, bottom flush
+example :
+    let it0 : GItem := { (default : GItem) with ml := some 2, mr := some 4, mt := some 1, mb := some 3 }
+    let it : GItem := { it0 with pl := 5, pr := 5, sWidth := some 20, sHeight := some 10, justifySelf := .center, alignSelf := .endLike }
+    let c : GContainer := { (default : GContainer) with justifyItems := .normal, alignItems := .normal }
+    let r := itemRect c it 10 5 100 40
+    (r.x, r.y, r.w, r.h) = (44, 32, 30, 10) := by decide +kernel
 
 end Wp.C12
